@@ -166,6 +166,22 @@ def stdio_cases(gw, rng, quick):
                 c["err"] = type(e).__name__
                 c["alive"] = gw.hasreceiver()
             out.append(c)
+    # remote code that rebinds sys.stdout / sys.stdin and lets the old objects go: descriptors 0 and 1 of the worker stay open (a later
+    # raw write still works and is not part of the protocol) and are not handed out to the next open()
+    c = {"k": "stdio", "ok": False, "alive": False, "writer": "rebind sys.stdout/sys.stdin, gc, os.write(1), open()", "n": 0}
+    try:
+        ch = gw.remote_exec("import gc, io, os, sys\nsys.stdout = io.StringIO()\nsys.stdin = io.StringIO()\ngc.collect()\nos.write(1, b'raw' * 1000)\n"
+                            "f = open(os.devnull)\nfresh = f.fileno() > 2\nf.close()\nchannel.send(('after', fresh))\nchannel.send(channel.receive() + 1)\n")
+        first = ch.receive(30)
+        ch.send(41)
+        second = ch.receive(30)
+        ch.waitclose(10)
+        c["ok"] = first == ("after", True) and second == 42
+        c["alive"] = gw.hasreceiver()
+    except Exception as e:  # noqa: BLE001
+        c["err"] = type(e).__name__
+        c["alive"] = gw.hasreceiver()
+    out.append(c)
     return out
 
 
@@ -228,6 +244,20 @@ def run(ctx):
             cases += stdio_cases(gw, rng, ctx.quick)
         finally:
             group.terminate(timeout=3)
+    # the stdio cases once more on a gevent worker (its own fdopen / file objects), when gevent is installed
+    try:
+        import gevent  # noqa: F401
+
+        group = execnet.Group()
+        try:
+            from real import matrix
+
+            gw = matrix.make_gateway(group, "popen", "gevent")
+            cases += stdio_cases(gw, rng, True)
+        finally:
+            group.terminate(timeout=3)
+    except ImportError:
+        ctx.note("gevent not installed: stdio cases not repeated on a gevent worker")
     slim = [{k: v for k, v in c.items() if k in ("k", "shape", "res", "ran", "kwargs_equal", "name_ok", "channel_bound", "want_file", "want_line",
                                                  "once", "closed_after", "ok", "alive", "refused", "closed_at_end", "open_before_end")} for c in cases]
     verdicts = batch.judge("RemoteExecCases", slim, ctx.scratch)
